@@ -430,7 +430,11 @@ func mkMesh(c *hlib.Ctx) *shape3 {
 	}
 	tris := m.TriangleSlice()
 	var col model3d.Collider
-	switch c.Rng.Intn(4) {
+	switch c.Rng.Intn(5) {
+	case 4:
+		var how string
+		col, _, _, how = wideBVH3(c, "shape3", append([]*model3d.Triangle{}, tris...))
+		mname += "/" + how
 	case 0:
 		col = model3d.MeshToCollider(m)
 		mname += "/MeshToCollider"
@@ -741,7 +745,11 @@ func mkMesh2(c *hlib.Ctx) *shape2 {
 	}
 	segs := m.SegmentsSlice()
 	var col model2d.Collider
-	switch c.Rng.Intn(3) {
+	switch c.Rng.Intn(4) {
+	case 3:
+		var how string
+		col, _, _, how = wideBVH2(c, "shape2", append([]*model2d.Segment{}, segs...))
+		name += "/" + how
 	case 0:
 		col = model2d.MeshToCollider(m)
 		name += "/MeshToCollider"
